@@ -225,6 +225,13 @@ func (p *plugEnd) run() {
 	}()
 	if p.in.Close == "early" {
 		p.conn.Close()
+		// the runtime notices only when its accept loop gets to this connection
+		if p.start != nil {
+			select {
+			case <-p.start:
+			case <-p.quit:
+			}
+		}
 		p.markClosed()
 		return
 	}
